@@ -118,11 +118,15 @@ class Prop(BaseProp):
 
     def eval_case(self, drv, case):
         insts = [le.Licensing(impl.table_objs(TABLES[i])) for i in case['insts']]
+        # the same history on the Lean world of instances with cached tokenizers (parse and validate calls)
+        wcalls, wgot = [], []
         shared = {}
         failed_before = False
         for n, op in enumerate(case['ops']):
             k = op['op']
             if k == 'construct':
+                wcalls.append([T('construct'), TABLES[op['table']]])
+                wgot.append(T('unit'))
                 x = le.Licensing(impl.table_objs(TABLES[op['table']]))
                 try:
                     x.parse(op['text'])
@@ -149,6 +153,12 @@ class Prop(BaseProp):
                 return Verdict('spec', case, 'a used Licensing answers differently from a fresh one (op %d, %s)' % (n, k), impl=got, model=want)
             if not (isinstance(got, list) and got and got[0] == 'ok') and got not in (True, False):
                 failed_before = True
+            if k == 'parse':
+                wcalls.append([T('parse'), op['inst'] % len(insts), op['simple'], op['strict'], op['validate'], op['text']])
+                wgot.append(got)
+            elif k == 'validate' and op['text'].strip():
+                wcalls.append([T('validate'), op['inst'] % len(insts), op['strict'], op['text']])
+                wgot.append([got[0], got[1], got[2], [P.fwords(x) for x in got[3]]] if isinstance(got, list) and got and got[0] == 'info' else got)
             if not op.get('shared') or op['text'] not in shared:
                 m = self.model_answer(drv, table, op)
                 if m is not None:
@@ -162,6 +172,19 @@ class Prop(BaseProp):
                         m = [m[0], m[1], m[2], [P.fwords(x) for x in m[3]]]
                     if g != m:
                         return Verdict('spec', case, 'the answer differs from the answer in a pristine process (op %d, %s)' % (n, k), impl=got, model=m)
+        if wcalls:
+            wm = drv.call(T('world'), [TABLES[i] for i in case['insts']], wcalls)
+
+            def norm(o):
+                o = impl.model_outcome_c(o)
+                if isinstance(o, list) and o and o[0] == 'parseerr':
+                    return ['parseerr', o[1], P.fwords(o[2]), o[3]]
+                if isinstance(o, list) and o and o[0] == 'info':
+                    return [o[0], o[1], (o[2] > 0) if not isinstance(o[2], bool) else o[2], [P.fwords(x) if isinstance(x, str) else x for x in o[3]]]
+                return o
+            for i, (a, b) in enumerate(zip(wgot, wm)):
+                if norm(a) != norm(b):
+                    return Verdict('diverge', case, 'world model (call %d of the parse/validate/construct subsequence)' % i, impl=a, model=b)
         return Verdict('ok', case, nontrivial=len(insts) >= 2 or failed_before, tags=['ops=%d' % (len(case['ops']) // 10 * 10)])
 
     def run(self, drv, rng, tier, index, nworkers, scale):
